@@ -140,7 +140,13 @@ func (r *Report) Finish(verifDir, tier string, seed int, wall float64, known []K
 	var all []*Obligation
 	nViol, nKnown, nErr := 0, 0, 0
 	for _, ru := range r.Rules {
-		st := RuleStat{ID: ru.ID, Engine: ru.Engine, Doc: ru.Doc, Min: ru.Min}
+		// the floor is 60% of the count confirmed by reading: a behaviour-preserving merge of two sites
+		// must not turn into an ERROR, a rule that lost most of its instances must
+		floor := ru.Min * 6 / 10
+		if floor < 1 && ru.Min > 0 {
+			floor = 1
+		}
+		st := RuleStat{ID: ru.ID, Engine: ru.Engine, Doc: ru.Doc, Min: floor}
 		for _, o := range ru.Obls {
 			if o.Verdict == VViolation {
 				for _, k := range known {
@@ -164,9 +170,9 @@ func (r *Report) Finish(verifDir, tier string, seed int, wall float64, known []K
 			st.Instances++
 			all = append(all, o)
 		}
-		if st.Instances < ru.Min {
+		if st.Instances < floor {
 			o := &Obligation{Rule: ru.ID, Construct: "min-instances", Pos: "-", Verdict: VError,
-				Detail: fmt.Sprintf("rule matched %d instances, %d were confirmed by reading; the rule would pass vacuously", st.Instances, ru.Min)}
+				Detail: fmt.Sprintf("rule matched %d instances, %d were confirmed by reading (floor %d); the rule would pass vacuously", st.Instances, ru.Min, floor)}
 			all = append(all, o)
 			st.Errors++
 			nErr++
